@@ -118,6 +118,13 @@ def check_C12(rep, known):
     engine.process_results(rep, recs, outs, [r'C12\.'], known)
 
 
+def check_C17(rep, known):
+    recs, st = tlc.generate('ScenSpline', 'ScenSpline.cfg', 'C17', rep.tier, rep.seed, parts=1)
+    rep.add_tlc(st)
+    outs = engine.pool_map('splines', 'replay', recs)
+    engine.process_results(rep, recs, outs, [r'C17\.'], known)
+
+
 def check_C13(rep, known):
     life_job(rep, [r'C13\.'], known)
 
@@ -144,8 +151,9 @@ def check_C18(rep, known):
     life_job(rep, [r'C18\.', r'C13\.d:outcome@\d+:save'], known)
 
 
-CHECKS = {'C15': check_C15, 'C08': check_C08, 'C07': check_C07, 'C02': check_C02, 'C06': check_C06, 'C01': check_C01, 'C04': check_C04, 'C05': check_C05, 'C13': check_C13, 'C12': check_C12, 'C16': check_C16, 'C20': check_C20, 'C18': check_C18, 'C09': check_C09, 'C10': check_C10, 'C11': check_C11, 'C14': check_C14}
+CHECKS = {'C15': check_C15, 'C08': check_C08, 'C07': check_C07, 'C02': check_C02, 'C06': check_C06, 'C01': check_C01, 'C04': check_C04, 'C05': check_C05, 'C13': check_C13, 'C17': check_C17, 'C12': check_C12, 'C16': check_C16, 'C20': check_C20, 'C18': check_C18, 'C09': check_C09, 'C10': check_C10, 'C11': check_C11, 'C14': check_C14}
 ENGINE = {p: ['life', 'replay'] for p in ('C13', 'C18')}
 ENGINE['C20'] = ['faults', 'replay']
 ENGINE['C16'] = ['der', 'replay']
 ENGINE['C12'] = ['stages', 'replay']
+ENGINE['C17'] = ['splines', 'replay']
